@@ -22,7 +22,6 @@ META = {
                  "with strace injection; trace validation of the system-call logs and post-states against the specification",
     "design_ref": "DESIGN.md section 5, C12; appendix A.3",
     "crates": ["c12"],
-    "disabled": True,
 }
 
 NEGATIVE = [
